@@ -3,7 +3,7 @@ S-expression reader/printer and the standard interpretation for the M1 term mode
 (line protocol of DESIGN Appendix A).  Used by the drivers of C18, C14 and C15.
 Strings are hex-encoded UTF-8 with an `x` prefix; rationals are `(rat p q)`.
 -/
-import Ampverif.Model.Expr
+import Ampverif.Model.ExprNew
 
 namespace Ampverif.Drivers
 open Ampverif.Model
@@ -203,8 +203,41 @@ def envOf (l : List (Sym × Q)) : Env := fun s =>
   | some p => p.2
   | none => 0
 
+/-- `(pool <sym> <oneShot 0|1> <value> …)`: an index with the iterable handed to `PoolSum.__new__`. -/
+def parsePools (l : List Sexp) : Option (List (Sym × Pool)) :=
+  l.mapM (fun p => match p with
+    | .list (.atom "pool" :: s :: .atom o :: vals) => do
+        let s ← parseSym s
+        let vs ← parseExprs vals
+        pure (s, ⟨vs, o == "1"⟩)
+    | _ => none)
+
+def showNewResult : NewResult → String
+  | .ok e => showExpr e
+  | .noValues j => "(novalues " ++ showSym j ++ ")"
+
 /-- replies shared by all M1 drivers; `none` = not an M1 command. -/
 def m1Command (v : Variant) : Sexp → Option String
+  -- `(new <validateInOwnPass> <dropsRepeated> <evaluate> <summand> (pool …) …)`: `PoolSum.__new__`
+  | .list (.atom "new" :: .atom tp :: .atom dd :: .atom ev :: e :: pools) => some <|
+      match parseExpr e, parsePools pools with
+      | some e, some ps => showNewResult (psumNew v ⟨tp == "1", dd == "1"⟩ e ps (ev == "1"))
+      | _, _ => "err parse"
+  -- `(rebuild <tp> <dd> <term>)`: `term.func(*term.args)`
+  | .list [.atom "rebuild", .atom tp, .atom dd, e] => some <|
+      match parseExpr e with
+      | some e => showNewResult (psumRebuild v ⟨tp == "1", dd == "1"⟩ e)
+      | none => "err parse"
+  -- `(subsnew <tp> <dd> <term> (<sym> <term>))` / `(xreplacenew <tp> <dd> <term> (<sym> <term>) …)`:
+  -- `subs` of ONE pair / `xreplace`, rebuilding through `__new__`
+  | .list [.atom "subsnew", .atom tp, .atom dd, e, pair] => some <|
+      match parseExpr e, parsePairs [pair] with
+      | some e, some [(x, a)] => showNewResult (subst1ViaNew v ⟨tp == "1", dd == "1"⟩ x a e)
+      | _, _ => "err parse"
+  | .list (.atom "xreplacenew" :: .atom tp :: .atom dd :: e :: pairs) => some <|
+      match parseExpr e, parsePairs pairs with
+      | some e, some ps => showNewResult (xreplaceViaNew v ⟨tp == "1", dd == "1"⟩ ps e)
+      | _, _ => "err parse"
   | .list (.atom "subs" :: e :: pairs) => some <|
       match parseExpr e, parsePairs pairs with
       | some e, some ps => showExpr (substSeq v ps e)
